@@ -13,8 +13,14 @@
   OBLIGATION c18_witness_interfaces_null
   OBLIGATION c18_witness_possible_lists_interfaces
   OBLIGATION c18_witness_dyn_implements_dropped
-  OPEN c18_roundtrip
+  OBLIGATION c18_visible_complete
+  OBLIGATION c18_visible_closed
+  OBLIGATION c18_roundtrip_wf
+  OBLIGATION c18_roundtrip_refuted
   OPEN c18_single_pass_differs
+
+  `c18_roundtrip` as first stated (ALL descriptions) is refuted (`c18_roundtrip_refuted`: a union
+  over a scalar); the law is proved for well-formed descriptions (`c18_roundtrip_wf`).
 
   All theorems are about the model with the relevant defect toggle OFF (the repaired behaviour);
   the remaining toggles are universally quantified where they do not matter.
@@ -222,9 +228,9 @@ theorem c18_witness_dyn_implements_dropped :
 
 -- ------------------------------------------------------------------ open
 
-/-- OPEN: the client schema rebuilt from the repaired introspection result is the served
-    description restricted to the visible part.  Evaluated by the judge on every generated case
-    (verdict TIE when it fails); not proved. -/
+/-- the round-trip statement over ALL descriptions: FALSE (`c18_roundtrip_refuted`); true and
+    proved under well-formedness (`c18_roundtrip_wf`).  Also evaluated by the judge on every
+    generated case (verdict TIE when it fails). -/
 def c18_roundtrip : Prop :=
   ∀ (fl : Flavour) (d : Desc) (c : Nat),
     d.query ∈ visibleNames Defects.none (mkRegistry Defects.none fl d) c →
@@ -236,5 +242,181 @@ def c18_roundtrip : Prop :=
     `decide` is not possible in the kernel). -/
 def c18_single_pass_differs : Prop :=
   ∃ (R : Registry) (c : Nat), visibleSet { singlePass := true } R c ≠ visibleSet Defects.none R c
+
+
+-- ------------------------------------------------------------------ completeness of the visibility search
+
+/-- `find_visible_types` (with the iterated final loop) computes EXACTLY the declaratively
+    reachable names (`Reach`: least set containing the passing roots — directive argument types
+    and root operation types —, closed under passing children of members and under "a passing
+    interface with a member among its possible types"); for every registry, duplicate names
+    included.  Left-to-right is soundness, right-to-left is completeness of the work-list search
+    and of the fixed-point pass (`R.types.length` iterations suffice). -/
+theorem c18_visible_complete (D : Defects) (hD : D.singlePass = false) (R : Registry) (c : Nat) (n : String) :
+    n ∈ visibleSet D R c ↔ Reach R.types c (searchRoots R c) n :=
+  visibleSet_iff D hD R c n
+
+/-- the three closure properties, spelled out -/
+theorem c18_visible_closed (D : Defects) (hD : D.singlePass = false) (R : Registry) (c : Nat) :
+    (∀ n ∈ searchRoots R c, Passes R.types c n → n ∈ visibleSet D R c) ∧
+    (∀ n ∈ visibleSet D R c, ∀ t, lookup R.types n = some t → ∀ m ∈ children c t, Passes R.types c m →
+        m ∈ visibleSet D R c) ∧
+    (∀ t ∈ R.types, t.kind = .interface → t.vis.holds c = true → Passes R.types c t.name →
+        ∀ p ∈ t.possible, p ∈ visibleSet D R c → t.name ∈ visibleSet D R c) := by
+  refine ⟨?_, ?_, ?_⟩
+  · intro n hn hp
+    exact (visibleSet_iff D hD R c n).mpr (Reach.root hn hp)
+  · intro n hn t hl m hm hp
+    exact (visibleSet_iff D hD R c m).mpr (Reach.child ((visibleSet_iff D hD R c n).mp hn) hl hm hp)
+  · intro t ht hk hv hpass p hp hpv
+    exact (visibleSet_iff D hD R c _).mpr (Reach.iface ht hk hv hp ((visibleSet_iff D hD R c p).mp hpv) hpass)
+
+-- ------------------------------------------------------------------ the round trip
+
+/-- THE ROUND-TRIP LAW for well-formed descriptions (`WellFormed`: registry names unique, union
+    members name OBJECT types): the client schema rebuilt from the introspection result is the
+    served description restricted to the visible part — every flavour, every visibility rule on
+    types / fields / arguments / input fields / enum values, every context.  `buildClient`
+    inverts each resolver: kinds, `ofType` chains, fields, arguments, input fields, enum values,
+    deprecations, interfaces, possibleTypes, specifiedByURL, isOneOf. -/
+theorem c18_roundtrip_wf (fl : Flavour) (d : Desc) (c : Nat) (hwf : WellFormed d)
+    (hq : d.query ∈ visibleNames Defects.none (mkRegistry Defects.none fl d) c) :
+    buildClient (introspect Defects.none (mkRegistry Defects.none fl d) c true) =
+      some (restrict d (visibleNames Defects.none (mkRegistry Defects.none fl d) c) c) := by
+  have hcl := c18_closed Defects.none rfl (mkRegistry Defects.none fl d) c true hq
+  simp only at hcl
+  obtain ⟨h1, h2, h3, h4⟩ := hcl
+  have hclosed : closed (introspect Defects.none (mkRegistry Defects.none fl d) c true) = true := by
+    simp only [closed, List.all_eq_true, List.contains_eq_mem, decide_eq_true_eq]
+    intro n hn
+    simp only [schemaRefs, List.mem_cons, List.mem_append, List.mem_map, Option.mem_toList,
+      List.mem_flatMap] at hn
+    rcases hn with ((rfl | hn | hn) | ⟨t, ht, hn⟩) | hn
+    · exact h2
+    · obtain ⟨r, hr, rfl⟩ := hn; exact h3 r hr
+    · obtain ⟨r, hr, rfl⟩ := hn; exact h4 r hr
+    · exact h1 t ht n hn
+    · rw [mem_listed_introspect]
+      have : n ∈ ["String", "Boolean", "Boolean", "String"] := by
+        rw [← dir_refs (mkRegistry Defects.none fl d).types]
+        simp only [List.mem_flatMap]
+        simp only [introspect, List.mem_map] at hn
+        obtain ⟨dt, ⟨d0, hd0, rfl⟩, hn⟩ := hn
+        exact ⟨d0, hd0, hn⟩
+      apply builtin_listed
+      simp only [List.mem_cons, List.mem_nil_iff, or_false] at this
+      rcases this with rfl | rfl | rfl | rfl <;> decide
+  unfold buildClient
+  rw [if_pos hclosed]
+  generalize hvn : visibleNames Defects.none (mkRegistry Defects.none fl d) c = vn at *
+  have htypes : (introspect Defects.none (mkRegistry Defects.none fl d) c true).types =
+      ((sortTypes (allTypes d)).filter (fun t => vn.contains t.name)).map (fun t =>
+        typeT Defects.none (mkRegistry Defects.none fl d).types vn c true (register Defects.none fl (allTypes d) t)) := by
+    simp only [introspect, hvn]
+    conv => lhs; arg 2; arg 2; rw [mkRegistry_types]
+    rw [List.filter_map, List.map_map]
+    congr 1
+    · congr 1; funext t; simp [register_name]
+  rw [htypes, List.mapM_map]
+  rw [mapM_some_of_forall _ (restrictType (allTypes d) vn c)]
+  · simp [restrict, introspect, hvn, rootRef, Option.map_map, Function.comp_def]
+    simp [mkRegistry]
+  · intro t ht
+    simp only [List.mem_filter, sortTypes, List.mem_mergeSort] at ht
+    exact clientType_typeT fl d hwf vn c t ht.1
+
+
+-- ------------------------------------------------------------------ `c18_roundtrip` without well-formedness is false
+
+theorem mapM_some_all {α β} (f : α → Option β) (l : List α) (ys : List β) (h : l.mapM f = some ys) :
+    ∀ x ∈ l, f x ≠ none := by
+  induction l generalizing ys with
+  | nil => intro x hx; cases hx
+  | cons a l ih =>
+    intro x hx hfx
+    simp only [List.mapM_cons] at h
+    cases hfa : f a with
+    | none => simp [hfa] at h
+    | some b =>
+      cases hl : l.mapM f with
+      | none => simp [hfa, hl] at h
+      | some ys' =>
+        rcases List.mem_cons.mp hx with rfl | hx
+        · rw [hfx] at hfa; cases hfa
+        · exact ih ys' hl x hx hfx
+
+private def wQ : IType :=
+  { name := "Q", kind := .object,
+    fields := [{ name := "u", desc := none, ty := .named "U", dep := .no, vis := .always, args := [] }] }
+private def wU : IType := { name := "U", kind := .union, members := ["String"] }
+private def wS : IType := { name := "String", kind := .scalar }
+/-- `type Q { u: U }  union U = String` — a union over a scalar: not a GraphQL schema, but a `Desc` -/
+def scalarUnionDesc : Desc := { query := "Q", mutation := none, subscription := none, types := [wQ, wU] }
+
+/-- the statement `c18_roundtrip` (all descriptions) is FALSE: for a union with a scalar member the
+    client rejects the introspection result (possible type that is not an OBJECT), while `restrict`
+    is defined.  The law holds for well-formed descriptions: `c18_roundtrip_wf`. -/
+theorem c18_roundtrip_refuted : ¬ c18_roundtrip := by
+  intro h
+  have hnd : ((allTypes scalarUnionDesc).map (·.name)).Nodup := by decide
+  have hQ : wQ ∈ allTypes scalarUnionDesc := by simp [allTypes, scalarUnionDesc]
+  have hU : wU ∈ allTypes scalarUnionDesc := by simp [allTypes, scalarUnionDesc]
+  have hS : wS ∈ allTypes scalarUnionDesc := by
+    simp only [allTypes, List.mem_append, List.mem_map, List.mem_filter]
+    left; right
+    exact ⟨"String", ⟨by decide, by decide⟩, rfl⟩
+  have lQ := lookup_mkRegistry Defects.none .static scalarUnionDesc hnd wQ hQ
+  have lU := lookup_mkRegistry Defects.none .static scalarUnionDesc hnd wU hU
+  have lS := lookup_mkRegistry Defects.none .static scalarUnionDesc hnd wS hS
+  generalize hR : mkRegistry Defects.none .static scalarUnionDesc = R at *
+  have rQ : Reach R.types 0 (searchRoots R 0) "Q" := by
+    apply Reach.root
+    · rw [← hR]; simp [searchRoots, rootNames, mkRegistry, scalarUnionDesc]
+    · exact ⟨_, lQ, rfl⟩
+  have rU : Reach R.types 0 (searchRoots R 0) "U" := by
+    refine Reach.child rQ lQ ?_ ⟨_, lU, rfl⟩
+    decide
+  have vQ : "Q" ∈ visibleNames Defects.none R 0 := by
+    simp only [visibleNames, List.mem_map, List.mem_filter]
+    exact ⟨_, ⟨(lookup_some lQ).1, by simp [(visibleSet_iff Defects.none rfl R 0 "Q").mpr rQ, register_name, wQ]⟩,
+      by simp [register_name, wQ]⟩
+  have vU : "U" ∈ visibleNames Defects.none R 0 := by
+    simp only [visibleNames, List.mem_map, List.mem_filter]
+    exact ⟨_, ⟨(lookup_some lU).1, by simp [(visibleSet_iff Defects.none rfl R 0 "U").mpr rU, register_name, wU]⟩,
+      by simp [register_name, wU]⟩
+  have vS : "String" ∈ visibleNames Defects.none R 0 := by
+    rw [← hR]; exact builtin_listed _ _ _ _ _ (by decide)
+  have hb := h .static scalarUnionDesc 0 (by rw [hR]; exact vQ)
+  rw [hR] at hb
+  unfold buildClient at hb
+  split at hb
+  · simp only [Option.map_eq_some_iff] at hb
+    obtain ⟨ts, hts, _⟩ := hb
+    refine mapM_some_all _ _ _ hts (typeT Defects.none R.types (visibleNames Defects.none R 0) 0 true
+      (register Defects.none .static (allTypes scalarUnionDesc) wU)) ?_ ?_
+    · simp only [introspect, List.mem_map, List.mem_filter]
+      exact ⟨_, ⟨(lookup_some lU).1, by simpa [register_name, wU] using vU⟩, rfl⟩
+    · have hp : (typeT Defects.none R.types (visibleNames Defects.none R 0) 0 true
+          (register Defects.none .static (allTypes scalarUnionDesc) wU)).possible =
+          some [RefT.named "SCALAR" "String"] := by
+        have lS' : lookup R.types "String" = some (register Defects.none .static (allTypes scalarUnionDesc) wS) := lS
+        simp [typeT, register, wU, namedRefs, vS, refT, lS', kindName]
+        decide
+      simp [clientType, hp, refKind]
+  · cases hb
+
+
+-- the hypotheses of `c18_roundtrip_wf` are satisfiable by a schema with an interface, a union,
+-- an enum and an input object
+example : WellFormed
+    { query := "Q", mutation := none, subscription := none,
+      types := [ { name := "Q", kind := .object, implements := ["I"],
+                   fields := [{ name := "u", desc := none, ty := .list (.nonNull (.named "U")), dep := .yes none,
+                                vis := .bit 1, args := [{ name := "a", desc := none, ty := .named "In", default := some "1",
+                                                           dep := .no, vis := .always }] }] },
+                 { name := "I", kind := .interface }, { name := "U", kind := .union, members := ["Q"] },
+                 { name := "E", kind := .enum, values := [{ name := "A", desc := none, dep := .no, vis := .never }] },
+                 { name := "In", kind := .input, oneOf := true } ] } := by
+  constructor <;> decide
 
 end AGV.Props.C18
